@@ -36,6 +36,12 @@ def run(prop, tier, seed, work):
     if prop == "C08":
         import checks_conc
         return checks_conc.run(prop, tier, seed, work)
+    if prop == "C06":
+        import checks_memory
+        return checks_memory.run06(prop, tier, seed, work)
+    if prop == "C14":
+        import checks_memory
+        return checks_memory.run14(prop, tier, seed, work)
     raise vlib.MachineryError("no check for " + prop)
 
 
